@@ -261,6 +261,38 @@ except Exception as err:
 '''
 
 
+def debug_parser(path, nums, budget, steps, rec, name, cut, case, parse):
+    '''The debugging variant of the parser (its second way of scanning) on
+    the same prefix: same error type or success, same editions found.'''
+    from valjean.eponine.tripoli4.parse import ParserException
+    from valjean.eponine.tripoli4.parse_debug import ParserDebug
+    rec.count('debug_parser_opened')
+    steps.start(budget)
+    try:
+        par = ParserDebug(path)
+        got = par.batch_numbers()
+        if parse:
+            par.parse_from_number(got[-1])
+            rec.count('debug_parser_parsed')
+    except ParserException:
+        got = None
+    except StepBudget as err:
+        rec.violation('debug-parser-exceeded-step-budget',
+                      f'{name} cut at {cut}: {err}', case)
+        return
+    except Exception as err:  # pylint: disable=broad-except
+        rec.violation(f'debug-parser-raised-{type(err).__name__}-in-'
+                      f'{site_of(err)}', f'{name} cut at {cut}: {err!r}',
+                      case)
+        return
+    finally:
+        steps.stop()
+    if not parse and (got is None) != (nums is None):
+        rec.violation('debug-parser-and-parser-disagree', f'{name} cut at '
+                      f'{cut}: Parser found editions {nums}, ParserDebug '
+                      f'{got}', case)
+
+
 def run(spec, rec):
     # pylint: disable=too-many-locals,too-many-branches,too-many-statements
     from valjean.eponine.tripoli4.parse import Parser, ParserException
@@ -313,6 +345,9 @@ def run(spec, rec):
                 rec.count('outcome.scan-ParserException')
                 outcomes_by_off[cut] = ('scan-ParserException', 0)
                 rec.seen((name, 'scan-PE', 0, line_kind))
+                if cut in inside and cut % 3 == 0:
+                    debug_parser(tmp, None, budget, steps, rec, name, cut,
+                                 case, parse=False)
                 continue
             except StepBudget as err:
                 steps.stop()
@@ -332,6 +367,9 @@ def run(spec, rec):
             rec.maxi('max_steps_scan', used)
             nums = par.batch_numbers()
             rec.count('outcome.scanned')
+            if cut in inside and cut % 3 == 0:
+                debug_parser(tmp, nums, budget, steps, rec, name, cut, case,
+                             parse=rrng.random() < 0.02)
             # which editions to parse: the last one always, another sometimes
             todo = [nums[-1]]
             if len(nums) > 1 and rrng.random() < 0.05:
